@@ -547,3 +547,7 @@ def check(case):
         obj.enable_sensitivities(False)
         case.close(np.asarray(obj.simulate(theta[free].copy(), times.copy()), dtype=float), want, rtol=1e-6, atol=1e-9,
                    what='outputs of the original after it was copied and its sensitivities were switched off again')
+
+
+RULE += (' Classes and clauses added in later rounds of the seeded-change protocol (DESIGN 9.4) are named in REQUIRED '
+         'and in seeded/HISTORY.json; the evidence counts every one of them under classes.')
